@@ -22,6 +22,15 @@ pub const DEF: PropDef = PropDef {
 
 pub const D7_SIG: &str = "D7: a competing index record with block data at an occupied height (stale sibling / failed block / reorged-out branch) is delivered instead of the active block when its hash sorts later as LevelDB key (one record per height kept, last insert wins)";
 
+/// the finding only suppresses a violation while it is listed as open in /verif/known_findings.json
+fn d7_listed() -> bool {
+    static LISTED: std::sync::OnceLock<bool> = std::sync::OnceLock::new();
+    *LISTED.get_or_init(|| {
+        let path = std::env::var("VP_KNOWN_FINDINGS").unwrap_or_else(|_| "/verif/known_findings.json".into());
+        std::fs::read_to_string(path).ok().and_then(|t| serde_json::from_str::<serde_json::Value>(&t).ok()).map(|d| d["open"].as_array().map(|a| a.iter().any(|e| e["id"] == "D7" && e["property"] == "C04")).unwrap_or(false)).unwrap_or(false)
+    })
+}
+
 #[derive(Clone, Copy, Debug, PartialEq, Eq, Serialize, Deserialize)]
 pub enum Kind {
     HeaderOnly,
@@ -152,7 +161,7 @@ pub fn check(c: &Case) -> Verdict {
         let predicted: Vec<(u64, Block)> = candidates.iter().enumerate().map(|(i, cs)| (built.blocks[i].0, cs.iter().max_by_key(|b| b.hash()).unwrap().clone())).collect();
         let differs = predicted.iter().zip(built.blocks.iter()).any(|(p, a)| p.1.hash() != a.1.hash());
         let pr: Vec<(u64, &Block)> = predicted.iter().map(|(h, b)| (*h, b)).collect();
-        if differs && check_callback(c.cb, built.coin, &pr, &out, 0).is_ok() {
+        if d7_listed() && differs && check_callback(c.cb, built.coin, &pr, &out, 0).is_ok() {
             known.push(D7_SIG.to_string());
         } else {
             return Verdict::Fail(format!("{} output is neither that of the active chain nor the known-finding prediction (extras {:?}): {}", c.cb.cli(), pattern, m));
